@@ -15,6 +15,7 @@ CONSTANTS Mode,        \* "read" | "mutate"
           EnumKeys,    \* read: key tokens used in the enumeration
           MaxEntries,  \* read: max number of entries of a map (<= 3)
           CoreOnly,    \* read: TRUE = maps of 3 entries only over CoreKeys
+          CoreKeys,    \* read: the keys whose interplay the readers depend on
           Priors,      \* mutate: names of prior states
           AlphaName,   \* mutate: "full" | "core"
           MaxMut,      \* mutate: number of mutator calls per behaviour
@@ -44,8 +45,6 @@ ClassesFor(k) ==
 Entries == UNION {{<<k, c>> : c \in ClassesFor(k)} : k \in EnumKeys}
 EntSeq == SetToSeq(Entries)
 NEnt == Len(EntSeq)
-CoreKeys == {"status","wait","start","modified","end","due","dep:t2","dep:self","tag:valid",
-             "tag:synth","ann:far","ann:valid","uda:plain"}
 
 (* index triples 0 <= i <= j <= k, zeros first, the others strictly           *)
 (* increasing; the largest index is chosen in a step of its own so that     *)
